@@ -14,8 +14,9 @@ def pythonize_method_name(name: str) -> str:
 
 
 def pythonize_enum_member_name(name: str, enum_name: str) -> str:
-    enum_name = casing.snake_case(enum_name).upper()
-    find = name.find(enum_name)
-    if find != -1:
-        name = name[find + len(enum_name) :].strip("_")
+    # Only a real ``ENUM_NAME_`` prefix is dropped (and only if something is left):
+    # looking for the enum name anywhere mangles e.g. ``ZERO`` of enum ``E`` to ``RO``.
+    prefix = casing.snake_case(enum_name).upper() + "_"
+    if name.startswith(prefix) and name[len(prefix) :].strip("_"):
+        name = name[len(prefix) :].strip("_")
     return casing.sanitize_name(name)
